@@ -172,6 +172,8 @@ def main(argv=None):
 
     findings, stats = [], {'compared': 0, 'distinct_nontrivial': 0, 'dist': {}}
     cases = []
+    if hok == 'surface':
+        t_problems.append('correspondence harness builds only against the public API of the current tree (internal API changed): ' + hmsg[-800:])
     if not hok or not mok:
         if not hok:
             t_problems.append('correspondence harness does not build against the current tree: ' + hmsg[-1500:])
